@@ -33,7 +33,8 @@ def configs(tier):
     out = []
     q = tier == 'quick'
     gs = ['2'] if q else ['2', '7/5']
-    nums = ['extrapol3', 'muscl:minmod'] if q else ['extrapol1', 'extrapol2', 'extrapolk', 'extrapol3', 'muscl:minmod', 'muscl:superbee', 'muscl:vanleer', 'muscl:vanalbada']
+    # (the thorough tier is sized to end within about an hour on 16 cores)
+    nums = ['extrapol3', 'muscl:minmod'] if q else ['extrapol1', 'extrapolk', 'extrapol3', 'muscl:minmod', 'muscl:vanalbada']
     # ---- reflection, operator level
     for model in ('convection', 'burgers', 'shallowwater', 'euler1d'):
         fluxes = ['abstract'] + [f for f in cm.FLUXES[model] if f != 'hllc']
@@ -52,15 +53,17 @@ def configs(tier):
                     bcs += [('dirichlet', 'dirichlet')]
                 if q and model == 'burgers' and fl != 'abstract' and num != 'muscl:minmod':
                     continue
+                if not q and model == 'euler1d' and num not in ('extrapol3', 'muscl:minmod'):
+                    continue          # Euler: the reconstructions of the quick tier (with gamma = 7/5 for extrapol3)
                 for bc in bcs:
-                    for g in (gs if model == 'euler1d' else [None]):
+                    for g in ((gs if (q or num == 'extrapol3') else gs[:1]) if model == 'euler1d' else [None]):
                         c = {'level': 'operator', 'clause': 'reflection', 'model': model, 'flux': fl, 'num': num, 'bc': list(bc), 'n': 4}
                         if g:
                             c['gamma'] = g
                         if model == 'burgers' and fl != 'abstract':
                             c.update(explore=True, no_feasibility=True, n=3)
                         if not q:
-                            c.update(timeout_ms=200000, budget_s=1200)
+                            c.update(timeout_ms=120000, budget_s=600)
                         out.append(c)
     # ---- units, component level (the operator is a composition of these homogeneous maps)
     for model in ('convection', 'burgers', 'shallowwater', 'euler1d'):
